@@ -472,7 +472,7 @@ def conclude(mod, prop, tier, seed, recs, planned, dead_workers, t_start, extra_
         reason = f"harness-errors:{harness_errors}"
     elif skipped.get("timeout", 0) > max(5, 0.1 * planned):
         reason = f"timeouts:{skipped['timeout']}"
-    elif sum(v for k, v in skipped.items() if k.startswith("worker-crash")) > max(3, 0.01 * planned):
+    elif sum(v for k, v in skipped.items() if k.startswith("worker-crash")) > max(3, getattr(mod, "WORKER_CRASH_TOLERANCE", 0.01) * planned):
         reason = "worker-crashes:" + str(sum(v for k, v in skipped.items() if k.startswith("worker-crash")))
     if reason:
         print(f"INCONCLUSIVE property={prop} reason={reason}")
